@@ -257,7 +257,7 @@ def generate_dependent_dispatch(tup, handlers, next_call, slf, name, err, nerr):
 
     else:
         for i, conj in enumerate(conjs):
-            body.append(f"MATCH{i} = {conj}")
+            body.append(f"MATCH{i} = True if {conj} else False")
 
         summation = " + ".join(f"MATCH{i}" for i in range(len(handlers)))
         body.append(f"SUMMATION = {summation}")
